@@ -286,3 +286,42 @@ PROPS["C20"] = dict(
                guard={"quick": 900, "thorough": 7200})],
     min_class_fraction={"x_on_edge": 0.3, "x_far_outside": 0.1, "two_dimensional": 0.3, "additivity_over_2plus_parts": 0.2},
 )
+
+
+PROPS["C17"] = dict(
+    pkg="c17",
+    rule=("value trees to container depth 5: eager and lazy lists, maps (list map, hash map, merged), ints, floats, bools, strings and keys "
+          "over all valid UTF-8 text, weighted to backslash, quote, U+0000-U+001F, U+007F, U+0085, U+2028/2029, U+D7FF/U+E000, U+FFFD..U+FFFF, "
+          "astral planes, markup/entity look-alikes, empty strings. Oracle: encoding/json accepts the document; token-level decoding (so "
+          "that duplicate keys are seen) yields arrays in order, objects with exactly the key set, every scalar as the JSON string of its "
+          "string form. The thorough tier adds a native byte-level fuzz target on single strings/keys. Non-trivial: a string or key needs "
+          "an escape, or depth >=3; distinct = exported document."),
+    assumptions=["strings are valid UTF-8 text (the property's domain)"],
+    jobs=[
+        dict(name="c17", run="^TestPropC17$", kind="rapid", shards=16, checks={"quick": 400000, "thorough": 8000000},
+             guard={"quick": 900, "thorough": 7200}),
+        dict(name="native_fuzz", kind="fuzz", fuzz="^FuzzStrings$", shards=1, tiers=("thorough",), fuzztime={"thorough": "300s"},
+             guard={"thorough": 900}),
+    ],
+    min_class_fraction={"string_or_key_needs_escape": 0.3, "depth_3plus": 0.05},
+)
+
+PROPS["C18"] = dict(
+    pkg="c18",
+    rule=("value trees as in C17 restricted to legal XML characters (incl. CR, TAB, LF, leading/trailing blanks), keys of any spelling, "
+          "comment/CDATA/entity/attribute look-alikes, plus Format (style strings, style maps, colspan), Link and File wrappers, http://, "
+          "https://, host: strings, lists of n-1..n+2 items around maxListSize (plain and rows), inline/class styling, custom renderers "
+          "that panic, fail or return markup. XML oracle: encoding/xml (strict) accepts the document; the inverse mapping of the element "
+          "tree equals the source (lists in order, maps with exactly the key set in attribute or entry form, every leaf text / attribute "
+          "value decodes to exactly the source string); no comment, directive or processing instruction appears; no raw TAB/LF/CR inside an "
+          "attribute value and no raw CR anywhere (an XML processor would normalise them). HTML oracle (metamorphic): the export of the "
+          "tree and the export of a neutral twin (every string replaced by a harmless placeholder that keeps only the http/https/host "
+          "prefix) have the same element skeleton (names, nesting, attribute names, only table/tr/td/a/span/b), and every text / attribute "
+          "value equals the twin's after substituting the originals back; ToHtml returns failures as err, never panics. Non-trivial: a "
+          "markup-significant character, CR/TAB/LF or edge blanks in a string or key, or a list at/over the cut-off; distinct = case."),
+    assumptions=["the inverse XML mapping follows the documented shapes <list><entry>, <map k=v/> and <map><entry key=k>",
+                 "string forms of scalars are taken as given (ToString)"],
+    jobs=[dict(name="c18", run="^TestPropC18$", kind="rapid", shards=16, checks={"quick": 300000, "thorough": 6000000},
+               guard={"quick": 900, "thorough": 7200})],
+    min_class_fraction={"markup_significant_string_or_key": 0.3, "list_crosses_cutoff": 0.1, "xml_checked": 0.4},
+)
